@@ -18,7 +18,7 @@ partial def simLoop (h : IO.FS.Stream) (out : IO.FS.Stream) (reps : Array SimRep
   if l.isEmpty then simLoop h out reps else
   match parseJson l.toList with
   | some req =>
-    let (reps', verdict) := simStep Hreal reps req
+    let (reps', verdict) := simStepP Hreal reps req
     out.putStrLn (String.ofList verdict)
     simLoop h out reps'
   | none =>
